@@ -134,11 +134,21 @@ def gen_color(rng, allow_special=True, palette_indices=False):
         return "currentColor"
     if palette_indices and r < 0.5:
         # few distinct RGB values so that one colour is often used both plain and under one or two explicit indices
-        return f"var(--color{rng.randint(0, 5)}, {rng.choice(HEX[:3])})"
+        return f"var(--color{rng.randint(0, 5)}, {rng.choice(HEX[:3])}{rng.choice(['', '', '', '80'])})"
     if palette_indices and r < 0.75:
         return rng.choice(HEX[:3])
     if allow_special and r < 0.14:
-        return f"var(--color{rng.randint(0, 3)}, {rng.choice(HEX[:4])})" if palette_indices else rng.choice(NAMED)
+        if palette_indices:
+            # a fallback may carry its own alpha (#RRGGBBAA): the indexed colour keeps it
+            return f"var(--color{rng.randint(0, 3)}, {rng.choice(HEX[:4])}{rng.choice(['', '', '80', 'C0'])})"
+        if r < 0.10:
+            # a palette variable outside the palette suites: the index is a function of the colour, so no two colours claim one slot
+            k = rng.randrange(len(HEX))
+            a = rng.choice(["", "", "80"])
+            return f"var(--color{k + (len(HEX) if a else 0)}, {HEX[k]}{a})"
+        return rng.choice(NAMED)
+    if allow_special and r < 0.17:
+        return rng.choice(HEX) + rng.choice(["80", "C0", "40"])
     if r < 0.25:
         return rng.choice(NAMED)
     if r < 0.35:
@@ -423,6 +433,35 @@ def make_origin_anchored_case(seed, fmt="glyf_colr_0"):
             "family": "origin-anchored"}
 
 
+def make_var_opacity_case(seed, fmt="glyf_colr_0"):
+    """solid fills only, no groups: every way a shape can get its alpha — the element's opacity, the alpha digits of a hex colour, a palette
+    variable whose fallback has either — each palette slot claimed by exactly one colour, so every colour format accepts the set"""
+    import random
+
+    r = random.Random(seed)
+    rgb = r.sample(["#FF0000", "#00AA00", "#0000FF", "#FFCC00", "#7F3FBF", "#10A0C0"], 5)
+    ops = ["0.5", "0.25", "0.75"]
+    fills = [
+        (f"var(--color{r.randint(1, 3)}, {rgb[0]})", r.choice(ops)),                    # variable + opacity
+        (f"var(--color{r.randint(4, 6)}, {rgb[1]}{r.choice(['80', 'C0'])})", None),     # variable whose fallback has alpha
+        (f"var(--color{r.randint(7, 9)}, {rgb[2]}{r.choice(['80', '40'])})", r.choice(ops)),   # both
+        (rgb[3] + r.choice(["80", "C0"]), r.choice(ops + [None])),                       # plain hex with alpha (+ opacity)
+        (rgb[4], r.choice(ops)),                                                         # plain + opacity
+    ]
+    r.shuffle(fills)
+    vb = r.choice([100, 128])
+    rects = []
+    for n, (f, o) in enumerate(fills):
+        x, y = 8 + 16 * n, 10 + 9 * n
+        w, h = 30 + 4 * n, 36
+        rects.append(f'<path d="M{x},{y} L{x + w},{y} L{x + w},{y + h} L{x},{y + h} Z" fill="{f}"' + (f' opacity="{o}"' if o else "") + "/>")
+    svg = f'<svg xmlns="http://www.w3.org/2000/svg" viewBox="0 0 {vb} {vb}">' + "".join(rects) + "</svg>"
+    cfg = {"color_format": fmt, "upem": 1024, "ascender": 950, "descender": -250, "width": 1275, "reuse_tolerance": r.choice([0.1, -1]),
+           "keep_glyph_names": True}
+    return {"id": f"var-opacity:{fmt}:{seed}", "seed": seed, "fmt": fmt, "svgs": [svg], "config": cfg, "codepoints": [[0xE000]],
+            "family": "var-opacity"}
+
+
 def make_shared_gradient_case(seed, fmt="picosvg"):
     """glyphs that share NO outline (so they end up in different OT-SVG documents) but use identical gradient definitions"""
     import random
@@ -642,5 +681,56 @@ def check_palette_of_font(ctx, res, case, out):
             res.add_cex(f"a fill declared as var(--colorN, ...) does not reference palette index N in the colour glyph (missing {sorted(explicit - refs)})",
                         {"case": case, "glyph": g, "referenced": sorted(refs), "source_colours": sorted(cols, key=repr)},
                         {"site": "font-colr-index", "case": case["id"], "glyph": i})
+    # the colour of every plain fill, resolved INDEPENDENTLY of nanoemoji's parser (harness/render.parse_color): rgb, the alpha the
+    # shape ends up with (colour alpha x shape opacity) and the declared palette slot must all be found on one layer of the glyph
+    from harness import render as _render
+    for i, pico in enumerate(out["picosvgs"]):
+        glyphs = shaper.shape(font, out["codepoints"][i])
+        if not glyphs or len(glyphs) != 1:
+            continue
+        g = glyphs[0]
+        have = []   # (palette index, r, g, b, alpha 0..1) per solid layer
+        if version == 0:
+            for l in font["COLR"].ColorLayers.get(g, []):
+                if l.colorID != 0xFFFF and l.colorID < len(pal_rgba):
+                    r_, g_, b_, a_ = pal_rgba[l.colorID]
+                    have.append((l.colorID, r_, g_, b_, a_ / 255))
+        else:
+            t = font["COLR"].table
+            layers = t.LayerList.Paint if t.LayerList else []
+
+            def walk2(p):
+                if p.Format == 1:
+                    for q in layers[p.FirstLayerIndex:p.FirstLayerIndex + p.NumLayers]:
+                        walk2(q)
+                if p.Format == 2 and p.PaletteIndex != 0xFFFF and p.PaletteIndex < len(pal_rgba):
+                    r_, g_, b_, _a = pal_rgba[p.PaletteIndex]
+                    have.append((p.PaletteIndex, r_, g_, b_, p.Alpha))
+                for attr in ("Paint", "SourcePaint", "BackdropPaint"):
+                    ch = getattr(p, attr, None)
+                    if ch is not None:
+                        walk2(ch)
+            for rec in (t.BaseGlyphList.BaseGlyphPaintRecord if t.BaseGlyphList else []):
+                if rec.BaseGlyph == g:
+                    walk2(rec.Paint)
+        for m in re.finditer(r"<path\b([^>]*)>", pico.tostring()):
+            attrs = dict(re.findall(r'([\w:-]+)="([^"]*)"', m.group(1)))
+            fill = attrs.get("fill", "black")
+            if fill.startswith("url(") or "currentColor" in fill or fill == "none":
+                continue
+            try:
+                cr, cg, cb, ca = _render.parse_color(fill)
+            except Exception:  # noqa
+                continue
+            mi = re.match(r"var\s*\(\s*--color(\d+)", fill)
+            idx = int(mi.group(1)) if mi else None
+            alpha = ca * float(attrs.get("opacity", 1))
+            rgb255 = (round(cr * 255), round(cg * 255), round(cb * 255))
+            ok = any((idx is None or pi == idx) and (r_, g_, b_) == rgb255 and abs(a_ - alpha) <= 1 / 255 + 1e-9 for (pi, r_, g_, b_, a_) in have)
+            if not ok:
+                res.add_cex(f"a plain fill {fill!r} with opacity {attrs.get('opacity', '1')} is not painted by any layer of its glyph with that colour, "
+                            f"alpha {alpha:.4f} and palette slot", {"case": case, "glyph": g, "layers": [list(h) for h in have], "fill": fill,
+                                                                   "opacity": attrs.get("opacity", "1")},
+                            {"site": "font-colr-colour", "case": case["id"], "glyph": i})
     if version == 1 and any(a != 255 for (_, _, _, a) in pal_rgba):
         res.add_cex("COLRv1 palette entry is not opaque", {"case": case, "palette": pal_rgba}, {"site": "font-cpal-opaque", "case": case["id"]})
